@@ -174,6 +174,18 @@ CLAIMS["C15"] = dict(
     technique="static analysis: override/parameter-use rule, normal-form comparison, CFG guard on the rebinding store, writer table",
     design="DESIGN.md section 5, C15")
 
+CLAIMS["C13"] = dict(
+    text="Guard table decided on the statement CFG of every refusal site the property lists: the documented exception is raised, "
+         "reachable, controlled (edge-sensitively) by a test of the required form on the named quantities (identity with None, "
+         "(in)equality of the two rows, count comparison), and the check can never follow the effect it protects "
+         "(check-before-effect reachability); the CFG dominator-edge fallback catches NoSiblingAncestor only and links after its "
+         "ancestor walk; optional op fields are read only through _check_complete accessors on every method reachable from "
+         "_to_serial; index range guards followed by a subscript bound the index on both sides (one-sided comparison rule).",
+    note="'Wherever in a program the inconsistency occurs' reduces to these sites because every builder path funnels through "
+         "them; the reduction itself is by reading the call graph, not executed.",
+    technique="static analysis: CFG guard dominance / check-before-effect + call-graph walk for raw optional reads + one-sided comparison rule",
+    design="DESIGN.md section 5, C13")
+
 NOT_APPLICABLE_REASON: dict[str, str] = {}
 
 
